@@ -1,6 +1,7 @@
 package main
 
 import (
+	"path/filepath"
 	"fmt"
 	"go/types"
 	"os"
@@ -485,6 +486,69 @@ func (e *Engine) verifyWriters(comp string) *FuncResult {
 		}
 		if !found {
 			c.note("declared writer " + f + " no longer writes " + comp)
+		}
+	}
+	// every write instruction is a compare-and-swap that the writer's contract annotates (the annotation carries the
+	// transition obligation): a plain or atomic store, a swap or an add on the field, or a compare-and-swap without
+	// an annotated transition, fails here - per instruction, hence under every schedule. Plain stores into an
+	// object allocated in the same function (initialisation) are exempt.
+	for _, key := range actual {
+		fn := e.funcs[key]
+		if fn == nil {
+			continue
+		}
+		ct := e.cf.Funcs[key]
+		casN := 0
+		for _, b := range fn.Blocks {
+			for _, in := range b.Instrs {
+				pos := e.prog.Fset.Position(in.Pos())
+				where := fmt.Sprintf("%s:%d", filepath.Base(pos.Filename), pos.Line)
+				switch x := in.(type) {
+				case *ssa.Store:
+					if cc, _ := e.staticFieldComp(x.Addr); cc == comp {
+						fresh := false
+						if fa, ok := x.Addr.(*ssa.FieldAddr); ok {
+							_, fresh = fa.X.(*ssa.Alloc)
+						}
+						goal := "false"
+						if fresh {
+							goal = "true"
+						}
+						c.oblige("writers", "plain store to "+comp+" in "+key+" at "+where+": only the initialisation of a freshly allocated object may store it; every other write must be an annotated compare-and-swap", where, nil, "true", goal)
+					}
+				case *ssa.Call:
+					f := x.Call.StaticCallee()
+					if f == nil || f.Pkg == nil || f.Pkg.Pkg.Path() != "sync/atomic" || len(x.Call.Args) == 0 {
+						continue
+					}
+					isCAS := strings.HasPrefix(f.Name(), "CompareAndSwap")
+					mine := false
+					if cc, _ := e.staticFieldComp(x.Call.Args[0]); cc == comp {
+						mine = true
+					}
+					if mine && !isCAS && !strings.HasPrefix(f.Name(), "Load") {
+						c.oblige("writers", "atomic."+f.Name()+" on "+comp+" in "+key+" at "+where+": every write of this field must be a compare-and-swap with an annotated forward transition", where, nil, "true", "false")
+					}
+					if isCAS && f.Name() == "CompareAndSwapUint32" {
+						if mine {
+							annotated := false
+							if ct != nil {
+								for _, ac := range ct.AtCalls {
+									if (ac.Hint || ac.CheckOnly) && !ac.Assume && ac.N == casN && strings.HasSuffix("sync/atomic.CompareAndSwapUint32", ac.Callee) {
+										annotated = true
+									}
+								}
+							}
+							goal := "false"
+							if annotated {
+								goal = "true"
+							}
+							c.oblige("writers", fmt.Sprintf("compare-and-swap #%d on %s in %s at %s carries an annotated transition (at call sync/atomic.CompareAndSwapUint32#%d hint ...)", casN, comp, key, where, casN), where, nil, "true", goal)
+						}
+						casN++
+					}
+				}
+			}
 		}
 	}
 	res.Obls = c.obls
